@@ -17,7 +17,7 @@ PROP = dict(
                        "Comdex.C14.breaker_rejected_on_every_route", "Comdex.C14.esm_rejected_on_every_route",
                        "Comdex.C14.no_price_error_swallowed", "Comdex.C14.price_errors_never_overwritten",
                        "Comdex.C14.price_errors_ignored_pinned", "Comdex.C14.twa_reads_test_own_activity",
-                       "Comdex.C14.twa_reads_pinned", "Comdex.C14.price_guard_pinned",
+                       "Comdex.C14.twa_reads_pinned", "Comdex.C14.price_swallow_reviewed_tight", "Comdex.C14.price_guard_pinned",
                        "Comdex.C14.sweeps_skip_controlled", "Comdex.C14.sweeps_pinned", "Comdex.C14.spec_lists"],
     harness_tests=["TestC14"],
     trusted_base=_TB,
